@@ -120,6 +120,8 @@ pub fn items() -> Vec<Item> {
         it("- SUM(v)", "NEG-SUM", "v", false),
         it("NOT BOOL_OR(b)", "NOT-BOOL_OR", "b", false),
         it("100 + - MAX(v)", "100-MAX", "v", false),
+        it("MIN(b)", "MIN", "b", false),
+        it("MAX(b)", "MAX", "b", false),
     ]
 }
 
@@ -330,7 +332,7 @@ pub struct Stmt {
     pub having: usize,
 }
 
-const GROUPS: [&str; 5] = ["", "GROUP BY k", "GROUP BY k, g", "GROUP BY upper(k)", "GROUP BY g"];
+const GROUPS: [&str; 6] = ["", "GROUP BY k", "GROUP BY k, g", "GROUP BY upper(k)", "GROUP BY g", "GROUP BY upper(k), g"];
 const FILTERS: [&str; 3] = ["", "WHERE v IS NOT NULL", "WHERE g = 1"];
 const HAVINGS: [&str; 12] = ["", "HAVING COUNT(*) > 1", "HAVING k IS NOT NULL", "HAVING SUM(v) > 2", "HAVING MAX(v) = 3", "HAVING COUNT(v) = 0", "HAVING COUNT(*) > 1 AND SUM(v) > 2", "HAVING SUM(v) > 2 AND COUNT(*) > 1", "HAVING MAX(v) = 3 OR COUNT(v) = 0", "HAVING COUNT(DISTINCT v) = 1", "HAVING COUNT(DISTINCT v) < COUNT(v)", "HAVING PERCENTILE(v, 0.5) > 1"];
 
@@ -340,6 +342,7 @@ fn keys_of(group_by: usize) -> Vec<&'static str> {
         1 => vec!["k"],
         2 => vec!["k", "g"],
         3 => vec!["upper(k)"],
+        5 => vec!["upper(k)", "g"],
         _ => vec!["g"],
     }
 }
@@ -634,14 +637,23 @@ fn statements(thorough: bool) -> Vec<Stmt> {
         }
         v
     };
+    let its_all = items();
     for (g, f, h) in &clause_sets {
         for a in 0..n {
+            // quick tier: under GROUP BY upper(k), g only the select lists that use g next to an aggregate
+            let uses_g = |i: usize| its_all[i].kind.ends_with("+g");
+            if !thorough && *g == 5 && !uses_g(a) {
+                continue;
+            }
             let s = Stmt { distinct: false, items: vec![a], group_by: *g, filter: *f, having: *h };
             if well_formed(&s) {
                 out.push(s);
             }
             for bq in 0..n {
                 if a == bq {
+                    continue;
+                }
+                if !thorough && *g == 5 && ![0usize, 1, 2, 3].contains(&bq) {
                     continue;
                 }
                 // the wrapped counts (items 29, 30) are paired with a reduced partner set in the quick tier
